@@ -41,8 +41,12 @@ pub fn gen(seed: u64, _idx: u64, tier: Tier) -> Scenario {
     let n = match tier { Tier::Quick => r.range(10, 50), Tier::Thorough => r.range(10, 120) };
     let mut in_multi = vec![false; nc];
     let mut waiter: Option<usize> = None;
+    // transient outcomes of the server's reads / writes on a client's socket (EINTR, empty-handed or partial transfers)
+    let syscall_faults = r.chance(1, 4);
+    sc.knobs.insert("syscall_faults".into(), syscall_faults as i64);
     for _ in 0..n {
         let c = r.below(nc as u64) as usize;
+        if syscall_faults && r.chance(1, 5) { sc.steps.push(transient_fault(&mut r, nc)); }
         if Some(c) == waiter { continue; }
         match r.weighted(&[30, 14, 8, 4, 3, 3, 6, 12, 3]) {
             0 => sc.steps.push(Step::Send { c, a: plain(&mut r, &mut uniq), split: vec![] }),
@@ -90,6 +94,7 @@ pub fn exec(sc: &Scenario) -> Outcome {
     h.sim.preempt_permille = sc.knob("preempt", 0) as u32;
     if let Err(e) = h.boot(&sc.cfg, "a") { return Outcome { verdict: "harness".into(), note: e, ..Default::default() }; }
     let mut m = Multi::new(h, "C07");
+    m.strict_stall = sc.knob("syscall_faults", 0) != 0;
     for (i, st) in sc.steps.iter().enumerate() {
         m.h.step_no = i;
         if m.h.dead.is_some() { break; }
@@ -97,6 +102,7 @@ pub fn exec(sc: &Scenario) -> Outcome {
             Step::Connect { c, .. } => m.connect(*c),
             Step::Send { c, a, .. } => { m.send(*c, &args_of(a)); }
             Step::Turns { n } => m.turns(*n),
+            Step::Arm { fop, conn: Some(c), nth, action, .. } => m.arm(*c, *fop, *nth, *action),
             Step::Close { c, .. } => { m.close(*c); m.turns(2); }
             Step::Adv { ns } => m.h.sim.advance(*ns),
             Step::Ctl { name, n, .. } if name == "sum" => {
@@ -116,7 +122,7 @@ pub fn exec(sc: &Scenario) -> Outcome {
 pub static DEF: CheckDef = CheckDef {
     id: "C07", level: "exploration", gen, exec,
     nontrivial: |o| o.counters.get("exec_batches").copied().unwrap_or(0) >= 1 && o.counters.get("cmds").copied().unwrap_or(0) >= 10,
-    rule: "one run = 2-4 connections over shared keys (three accounts with transfers, strings, a list, a set): plain commands with unique values, whole transactions pipelined at once (0-8 queued commands incl. ones failing at run time), transfers delivered piecewise over several turns while other clients read all accounts with MGET, nested MULTI, EXEC/DISCARD without MULTI, disconnect in mid-transaction, transfer and read scripts, a BLPOP waiter combined with a transaction that pushes and then inspects the list; requests of different connections are delivered before the same loop turn so the server's service order decides. The simulator derives the exact execution order of all requests from the transport seam (order of the server's reads) and feeds it to the sequential reference model with per-connection transaction state; oracle: every reply incl. each slot of every EXEC array equals the model's with the whole EXEC batch applied as one step at its position in the order, QUEUED for queued commands, errors in their slot, nothing applied after DISCARD/disconnect, and the stored dataset equals the model after every turn; non-trivial = at least one executed EXEC batch and 10 commands",
+    rule: "one run = 2-4 connections over shared keys (three accounts with transfers, strings, a list, a set): plain commands with unique values, whole transactions pipelined at once (0-8 queued commands incl. ones failing at run time), transfers delivered piecewise over several turns while other clients read all accounts with MGET, nested MULTI, EXEC/DISCARD without MULTI, disconnect in mid-transaction, transfer and read scripts, a BLPOP waiter combined with a transaction that pushes and then inspects the list; requests of different connections are delivered before the same loop turn so the server's service order decides. The simulator derives the exact execution order of all requests from the transport seam (order of the server's reads) and feeds it to the sequential reference model with per-connection transaction state; oracle: every reply incl. each slot of every EXEC array equals the model's with the whole EXEC batch applied as one step at its position in the order, QUEUED for queued commands, errors in their slot, nothing applied after DISCARD/disconnect, and the stored dataset equals the model after every turn; in a quarter to a third of the runs single reads / writes of the server on a client's socket are made to fail with EINTR, to come back empty-handed (EAGAIN, reads only) or to transfer only 1..100 bytes (fault injection at the libc boundary) - transient outcomes that must not change any reply or the dataset; non-trivial = at least one executed EXEC batch and 10 commands",
     quick_budget_s: 40.0, thorough_budget_s: 900.0, quick_max_runs: 1_000_000, thorough_max_runs: 100_000_000, exhaustive: false, exhaustive_after: |_| 0,
     real: REAL_WHOLE_SERVER, stub: STUB_WHOLE_SERVER, assumptions: ASSUME_COMMON,
 };
